@@ -87,7 +87,8 @@ def same(back, m):
 
 
 def gen_variant(rng, k):
-    """returns YAML text of a (mostly valid) document in one of the documented syntaxes"""
+    """returns (YAML text of a (mostly valid) document in one of the documented syntaxes, what it means or None when a defect was injected)"""
+    clean = True
     def num(x):
         c = rng.randrange(4)
         if x == int(x) and c == 0:
@@ -100,36 +101,87 @@ def gen_variant(rng, k):
     keys = list(geom)
     if k % 11 == 3:
         keys.remove(rng.choice(keys))                       # missing field
+        clean = False
     rng.shuffle(keys)
     for kk in keys:
         v = num(geom[kk])
         if k % 13 == 5 and kk == keys[0]:
             v = rng.choice(["abc", "[1]", "~", "true"])      # wrong node kind
+            clean = False
         lines.append(f"  {kk}: {v}")
     dof = rng.choice([5, 6, 6, None])
     place = rng.choice(["nested", "top"])
     if dof is not None and place == "nested":
         lines.append(f"  dof: {dof}")
     n = rng.choice([6, 6, 6, 5, 4, 7]) if k % 7 == 2 else rng.choice([6, 5])
-    offs = []
+    offs, offv = [], []
+    if n not in (5, 6):
+        clean = False
     for _ in range(n):
         d = round(rng.uniform(-180, 180), rng.choice([0, 1, 4]))
         c = rng.randrange(6)
+        if c == 5 and not (k % 5):
+            clean = False
         offs.append(["0", f"deg({d})", f"deg( {d} )", repr(round(math.radians(d), 6)), str(int(d)), rng.choice(["xyz", "deg(abc)", f"'{d}'"])][c] if not (c == 5 and k % 5) else "0.0")
+        # plain numbers (integer or real) are radians; deg(..) is degrees
+        offv.append([0.0, math.radians(d), math.radians(d), round(math.radians(d), 6), float(int(d)), None][c] if not (c == 5 and k % 5) else 0.0)
     if k % 17 != 4:
         lines.append("opw_kinematics_joint_offsets: [" + ", ".join(offs) + "]")
+    else:
+        offv = [0.0] * 6
     m = rng.choice([6, 5]) if k % 7 != 6 else rng.choice([3, 8, 6])
     sg = [str(rng.choice([1, -1])) for _ in range(m)]
+    sgv = [int(x) for x in sg]
+    if m not in (5, 6):
+        clean = False
     if k % 19 == 7:
         sg[0] = rng.choice(["1.5", "x", "[1]"])
+        clean = False
     if k % 23 != 9:
         lines.append("opw_kinematics_joint_sign_corrections: [" + ", ".join(sg) + "]")
+    else:
+        sgv = [1] * 6
     if dof is not None and place == "top":
         lines.append(f"dof: {dof}")
     text = "\n".join(lines) + "\n"
     if k % 29 == 11:
         text = rng.choice(["", "# only a comment\n", "- 1\n- 2\n", "42\n", "opw_kinematics_geometric_parameters: 3\n"])
-    return text
+        clean = False
+    expected = None
+    if clean:
+        dofv = dof if dof is not None else 6
+        sgv = (sgv + [0])[:6] if len(sgv) == 5 else sgv
+        if dofv == 5:
+            sgv = sgv[:5] + [0]
+        expected = {"geom": [geom[x] for x in ["a1", "a2", "b", "c1", "c2", "c3", "c4"]], "off": (offv + [0.0])[:6] if len(offv) == 5 else offv, "sg": sgv, "dof": dofv}
+    return text, expected
+
+
+def variant_oracle(frecs, expected, texts):
+    """independent reading of the generated documents: a document written in a documented syntax must parse to the values it spells"""
+    out = []
+    for r in frecs:
+        name = os.path.basename(r["file"])
+        exp = expected.get(name)
+        if not exp:
+            continue
+        b = r["back"]
+        why = None
+        if b["outcome"] != "ok":
+            why = "C19.valid_variant_rejected"
+        else:
+            g = [C.f64(h) for h in b["geom"]]; o = [C.f64(h) for h in b["off"]]
+            if any(abs(a - e) > 1e-12 for a, e in zip(g, exp["geom"])):
+                why = "C19.variant_geometry_misread"
+            elif any(abs(a - e) > 1e-9 for a, e in zip(o, exp["off"])):
+                why = "C19.variant_offset_misread"
+            elif list(b["sg"]) != exp["sg"]:
+                why = "C19.variant_signs_misread"
+            elif b["dof"] != exp["dof"]:
+                why = "C19.variant_dof_misread"
+        if why:
+            out.append({"prop": "C19", "class": why, "direct": "fail", "document": texts[name], "expected": exp, "back": b})
+    return out
 
 
 def correspondence(tier, seed, n=None):
@@ -160,9 +212,14 @@ def correspondence(tier, seed, n=None):
     d = tempfile.mkdtemp(prefix="vh_c19_")
     try:
         nv = 3000 if tier == "thorough" else 400
+        expected, texts = {}, {}
         for k in range(nv):
-            open(f"{d}/v{k:05d}.yaml", "w").write(gen_variant(rng, k))
+            text, exp = gen_variant(rng, k)
+            open(f"{d}/v{k:05d}.yaml", "w").write(text)
+            expected[f"v{k:05d}.yaml"], texts[f"v{k:05d}.yaml"] = exp, text
         frecs = [r for r in C.run_harness(["C19files", d]) if r.get("what") == "file"]
+        failures += variant_oracle(frecs, expected, texts)
+        dist["variant_documents_with_known_meaning"] = len([e for e in expected.values() if e])
     finally:
         shutil.rmtree(d, ignore_errors=True)
     exprs = ["run_from [" + "; ".join(ylit(t) for t in r["tree"]) + "]" if not isinstance(r["tree"], str) else "run_from []" for r in frecs]
@@ -189,4 +246,18 @@ def correspondence(tier, seed, n=None):
 
 def search(tier, seed, res):
     recs = C.run_harness(["C19", tier, seed + 1000, 20000])
-    return [r for r in recs if r.get("direct") == "fail"]
+    out = [r for r in recs if r.get("direct") == "fail"]
+    if not out:
+        rng = random.Random(seed * 104729 + 7)
+        d = tempfile.mkdtemp(prefix="vh_c19s_")
+        try:
+            expected, texts = {}, {}
+            for k in range(4000):
+                text, exp = gen_variant(rng, k)
+                open(f"{d}/v{k:05d}.yaml", "w").write(text)
+                expected[f"v{k:05d}.yaml"], texts[f"v{k:05d}.yaml"] = exp, text
+            frecs = [r for r in C.run_harness(["C19files", d]) if r.get("what") == "file"]
+            out = variant_oracle(frecs, expected, texts)
+        finally:
+            shutil.rmtree(d, ignore_errors=True)
+    return out
